@@ -45,6 +45,12 @@
 (*   TagDelete        ocidir/tag.go:tagDelete                               *)
 (*   ManifestDelete   ocidir/manifest.go:ManifestDelete (referrerDelete for *)
 (*                    a manifest with a subject, index entries, file)       *)
+(*   Retag            image.go:ImageCopy inside the layout (same repository: *)
+(*                    GCLock, ManifestGet and ManifestPut under the new tag,*)
+(*                    GCUnlock; no request to a registry, so the call runs  *)
+(*                    through without a point where others could interleave *)
+(*                    except between its critical sections, which is not    *)
+(*                    modelled: one step)                                   *)
 (*   PushBlob         ocidir/blob.go:BlobPut outside a copy (no lock)       *)
 (*   PushBlobBad      BlobPut whose content fails verification: the temp    *)
 (*                    file stays, refMod is not reached                     *)
@@ -346,6 +352,17 @@ ManifestDelete(n) ==
   /\ modRefs' = RefMod(modRefs, conf.okey)
   /\ UNCHANGED <<conf, hasidx, CopyVars, closes>>
 
+\* p = <<from tag, to tag>>: the manifest file is rewritten with the same content, the new tag
+\* is set; lock and unlock cancel out
+Retag(p) ==
+  /\ Op /\ p \in conf.retags /\ hasidx /\ TagAt(idx, p[1]) # "none" /\ TagAt(idx, p[1]) \in files
+  /\ TagAt(idx, p[2]) # TagAt(idx, p[1])
+  /\ LET r == ManPut(files, idx, TagAt(idx, p[1]), p[2], FALSE) IN
+     /\ files' = r.files
+     /\ idx' = r.idx
+  /\ modRefs' = GCUnlock(RefMod(GCLock(modRefs, conf.okey), conf.okey), conf.okey)
+  /\ UNCHANGED <<conf, hasidx, CopyVars, closes>>
+
 PushBlob(b) ==
   /\ Op /\ b \in conf.pblobs
   /\ files' = files \cup {b}
@@ -381,6 +398,7 @@ Calls == \/ \E c \in Copies : CopyBegin(c)
          \/ \E k \in conf.ckeys : Close(k)
          \/ \E t \in {e[1] : e \in idx} : TagDelete(t)
          \/ \E n \in Mans : ManifestDelete(n)
+         \/ \E p \in conf.retags : Retag(p)
          \/ \E b \in Nodes : PushBlob(b)
          \/ PushBlobBad
          \/ \E p \in conf.pmans : PushManifest(p)
